@@ -19,7 +19,7 @@ LEVEL_TEXT = ("seeded exploration of the real registry, GC task, access-log task
 LEVEL_NOTE = "ground truth comes from the harness' own sockets; polls within 1.2 virtual s of an open/close are not judged for /live (GC period 1 s)"
 ASSUMPTIONS = ["the access log is only guaranteed on disk after a rotation (the writer buffers): the final rotation is part of every plan"]
 
-KINDS = [("ok", 6), ("ok-early", 3), ("deny", 2), ("refused", 2), ("abort-hs", 2), ("abort-mid", 2), ("badreq", 1), ("tlsfail", 1), ("udp", 1), ("idle", 1)]
+KINDS = [("ok", 6), ("ok-early", 3), ("ok-banner", 3), ("deny", 2), ("refused", 2), ("abort-hs", 2), ("abort-mid", 2), ("badreq", 1), ("tlsfail", 1), ("udp", 1), ("idle", 1)]
 AUTOMATON = {
     "ClientConnected": {"ClientRequested", "ErrorOccured"},
     "ClientRequested": {"ServerConnecting", "ErrorOccured"},
@@ -56,6 +56,11 @@ def gen(rng, tier, i):
     sc.add_direct("d")
     dead_ip = sc.origin_ip()
     sc.rule("deny", 'request.target.port == 9')
+    # tunnels to port 7 go through an upstream HTTP proxy, to port 8 through an upstream SOCKS5 proxy (origin speaks first there)
+    uh = sc.add_http_connector("uh")
+    us = sc.add_socks_connector("us", version=5)
+    sc.rule("uh", 'request.target.port == 7')
+    sc.rule("us", 'request.target.port == 8')
     sc.rule("d")
     oip, oport = sc.origin_ip(), sc.port()
     sc.add_origin("%s:%d" % (oip, oport), default_ops=[op("serve_tagged", timeout_ms=120000)], oid="origin")
@@ -78,7 +83,31 @@ def gen(rng, tier, i):
         cid = "k%d" % k
         c = {"cid": cid, "kind": kind, "listener": li["name"], "start": start}
         variant = rng.choice(["5", "5p", "4"]) if li["kind"] == "socks" else None
-        if kind in ("ok", "ok-early", "abort-mid", "idle"):
+        if kind == "ok-banner":
+            free = [x for x in (uh, us) if not x["server"]["conns"]]
+            if not free:
+                kind = "ok"   # one such tunnel per upstream proxy keeps the far end attributable (scripts are matched by accept order)
+                c["kind"] = "ok"
+        if kind == "ok-banner":
+            # the upstream proxy glues the origin's first bytes to its success reply; then the client's bytes go up
+            ci = rng.choice(free)
+            port = 7 if ci is uh else 8
+            seed = rng.getrandbits(60) | 1
+            c2s, s2c = rng.choice([0, 1, 700, 9000]), rng.choice([1, 126, 700, 9000])
+            hs, proto = sc.client_handshake(li, oip, port, variant=variant)
+            ops = hs + [op("expect", fill=[seed ^ TAG_XOR, s2c], timeout_ms=120000, label="s2c"), op("send", fill=[seed, c2s], timeout_ms=120000), op("shutdown"),
+                        op("recv_eof", timeout_ms=120000, label="eof")]
+            hsu = sc.upstream_handshake(ci)
+            glue = rng.random() < 0.7
+            last = [o for o in hsu if o["op"] == "send"][-1]
+            if glue:
+                last["fill"] = [seed ^ TAG_XOR, s2c]
+                tail = []
+            else:
+                tail = [op("sleep", ms=30), op("send", fill=[seed ^ TAG_XOR, s2c])]
+            ci["server"]["conns"].append(hsu + tail + [op("recv_eof", timeout_ms=120000, label="banner-c2s", keep=0), op("shutdown")])
+            c.update({"c2s": c2s, "s2c": s2c, "proto": proto, "target": "%s:%d" % (oip, port), "connector": ci["name"], "seed": seed, "banner": True, "banner_conn": "up-%s#%d" % (ci["name"], len(ci["server"]["conns"]) - 1)})
+        elif kind in ("ok", "ok-early", "abort-mid", "idle"):
             seed = rng.getrandbits(60) | 1
             c2s, s2c = rng.choice([0, 1, 700, 9000, 70000]), rng.choice([0, 1, 700, 9000, 70000])
             hdr = tag_header(seed, c2s, s2c)
@@ -257,16 +286,23 @@ def oracle(plan, out):
                 continue
             # ... and only when the origin verifiably received every client byte (a tunnel torn down early,
             # e.g. by an idle timeout, has no well-defined "bytes relayed" from the harness' side)
-            srv = [x for x in R.records if x.get("op") == "serve_tagged" and x.get("tag_seed") == c.get("seed")]
-            if not srv:
-                continue
-            e0 = R.op_by_index(srv[0]["conn"], srv[0]["i"] + "r0")
-            if e0 is None or e0["res"] != "ok":
-                continue
+            if c.get("banner"):
+                # upstream connections are matched to scripts by accept order: only judge when exactly this tunnel's
+                # far end saw exactly this tunnel's byte count
+                b = [x for x in R.records if x.get("label") == "banner-c2s" and x.get("res") == "eof@%d" % c["c2s"]]
+                if len([x for x in meta["conns"] if x.get("banner") and x["connector"] == c["connector"]]) != 1 or not b:
+                    continue
+            else:
+                srv = [x for x in R.records if x.get("op") == "serve_tagged" and x.get("tag_seed") == c.get("seed")]
+                if not srv:
+                    continue
+                e0 = R.op_by_index(srv[0]["conn"], srv[0]["i"] + "r0")
+                if e0 is None or e0["res"] != "ok":
+                    continue
             cb = r.get("client_stat", {}).get("read_bytes")
             sb = r.get("server_stat", {}).get("read_bytes")
             if cb != c["c2s"] or sb != c["s2c"]:
-                early = "early" if c["kind"] == "ok-early" else "plain"
+                early = "early" if c["kind"] == "ok-early" else ("upstream-early" if c.get("banner") else "plain")
                 V.append(Violation(ID, "wrong-byte-count", "C16/wrong-byte-count/%s/%s" % (early, io),
                                    "%s: relayed %d bytes client->server and %d server->client, record says %s and %s" % (desc, c["c2s"], c["s2c"], cb, sb)))
     # history is newest first and a suffix-free subset of the log
